@@ -37,7 +37,7 @@ def where(exc):
     return "?"
 
 
-def try_scan_text(lang, text, limit=60):
+def try_scan_text(lang, text, limit=20):
     try:
         with core.time_limit(limit):
             ms = oracle.scan_text(lang, text)
@@ -51,10 +51,16 @@ def try_scan_text(lang, text, limit=60):
                       "".join(traceback.format_exception_only(type(e), e)).strip())
 
 
-def _emit_text(agg, desc, limit=60):
+def _emit_text(agg, desc, limit=20):
     lang = desc["lang"]
     text = malformed.text_of(desc)
+    if agg.extra["hangs_in_block"] >= 2:
+        # two inputs of this block already hang: the violation is established; do not spend the watchdog on every further one
+        agg.extra["cases_skipped_after_hangs"] += 1
+        return
     n, v = try_scan_text(lang, text, limit)
+    if v is not None and v[0] == "analysis-hangs":
+        agg.extra["hangs_in_block"] += 1
     agg.case(desc, True, "ok" if v is None else v[0] + ":" + str(v[1].get("error")), sample=bool(n))
     if v:
         agg.violation(v[0], v[1], desc, v[2] + "\n" + text[:600])
@@ -225,6 +231,8 @@ def _block(block, agg):
             descs.append({"fam": "damage", "lang": lang, "seed": seed, "op": op, "at": at})
         for d in descs:
             _emit_text(agg, d)
+        if agg.extra["hangs_in_block"]:
+            return
         # the same inputs as real files through scan / check
         contents = [malformed.text_of(d).encode("utf-8") for d in descs]
         for entry in ("scan", "check-dir", "check-files"):
